@@ -3,6 +3,7 @@ module verifharness
 go 1.24.0
 
 require (
+	github.com/PowerDNS/lmdb-go v1.9.3
 	github.com/tyler-smith/go-bip39 v1.1.0
 	github.com/virel-project/go-randomvirel v1.1.5
 	github.com/virel-project/virel-blockchain/v3 v3.0.0
